@@ -42,6 +42,12 @@ CLAIMED = {
    text="Proof: Host/Ledger.v mirrors order_syscall, cancel/getOrderId, fulfill_orders, step's resume logic and the mem::take of pending/cancelled on every Suspended. Proved unbounded over programs and host action sequences: reported ++ queued is an order-preserving duplicate-free sub-sequence of the orders created with strictly increasing ids (c08_orders_reported_once); every Suspended hands over the whole queue and leaves an outstanding order or a non-empty batch (c08_suspended_has_work); once the awaited order is answered the next step consumes the answer and progresses, an unhandled error answer surfaces as an error (c08_answered_order_resumes); known findings O1/O2 are refuted by witness. Tie: corpus + exhaustive programs (<=3/4 events) x 4 hosts + random programs (<=6 orders) x random hosts with subsets, batching, extra steps, unknown/duplicate ids and error answers, each compiled to TypeScript over tsrun:host and replayed on the real interpreter under three GC thresholds; full StepResult trace equality with the model.",
    note="Trusted: Coq kernel; extraction + OCaml driver; Rust harness (scripted host); the event-language-to-TypeScript compiler in lib/c08.py. Partial: promise combinators over host promises (all/race/any/allSettled) and the wait graph are not in the model.",
    design_ref="DESIGN.md §5 C08"),
+ "C09": dict(
+   engine="Host",
+   technique="Coq proof (loader invariant for every graph, early-supply set, host action sequence and pending-map iteration order: bodies at most once and after their imports; entry after its imports; duplicate-free requests) + correspondence of generated TypeScript module DAGs under six supply schedules with the extracted model and the property's statements on the trace",
+   text="Proof: Host/Modules.v mirrors prepare, setup_vm_from_program, the process_pending_modules fixed point, execute_pending_module and provide_module over abstract modules (log entry + resolved dependency list), with the FxHashMap iteration order as a parameter. Proved unbounded: NoDup of the load log and dependencies-first for every graph, every early-supply set, every action sequence and every permutation order (c09_bodies_once_deps_first); the entry starts only after all its imports ran (c09_entry_after_imports); request lists are duplicate-free (c09_requests_once). Tie: random DAGs of 2-8 real modules with named/default/namespace imports, re-exports, side-effect and duplicated imports in seven spellings per path, under all-at-once / reverse / shuffled / one-by-one / batched / duplicate+early supply scripts and three GC thresholds: NeedImports rounds (as sets) and load log vs the model; topological log, each body once, schedule-independent result incl. live bindings through bump(), and api::get_export vs the closed-form specification.",
+   note="Trusted: Coq kernel; extraction + OCaml driver; Rust harness; the Python module generator and its closed-form expected values. Partial: module bodies are abstract in the model (live bindings and namespace objects are checked by correspondence only); cyclic graphs are out of scope.",
+   design_ref="DESIGN.md §5 C09"),
 }
 
 NOT_YET = "not claimed yet in this revision: its model/theorem pair is not built; see DESIGN.md §5 and §8 (build order)"
